@@ -72,11 +72,11 @@ type magDriver struct {
 	cache    map[string][][]absint.Val // leaf-function summaries: key -> per pointer argument, final limb values
 	hits     int
 	// engine X (rules_exact.go)
-	weights  []int
-	exact    map[string]string
-	exactPos map[string]*ssa.Function
-	exactOK  map[string]int
-	exactN   int
+	weights     []int
+	exact       map[string]string
+	exactPos    map[string]*ssa.Function
+	exactOK     map[string]int
+	exactN      int
 	exactActive bool
 }
 
